@@ -1409,6 +1409,46 @@ fn cmd_png_grid() {
 }
 
 // C30 Eb: user-chosen resource names in drawing operators: draw_image(name) -> content stream -> parser -> same name
+// C12 Eb: CFF INDEX writer. build_cff_index rebuilds the CharStrings / FDArray / Top DICT INDEX of every CFF subset. Item lists whose total
+// data length sits on and around the offSize boundaries (255/256, 65535/65536) are written and decoded again with an independent reader
+// (CFF spec, Technical Note #5176 section 5: count, offSize, count+1 offsets relative to the byte before the data, 1-based).
+fn cmd_cffindex() {
+    use oxidize_pdf::text::fonts::cff::index::build_cff_index;
+    fn read_index(b: &[u8]) -> Result<Vec<Vec<u8>>, String> {
+        if b.len() < 2 { return Err("short".into()); }
+        let count = u16::from_be_bytes([b[0], b[1]]) as usize;
+        if count == 0 { return if b.len() == 2 { Ok(vec![]) } else { Err("empty INDEX longer than 2 bytes".into()) }; }
+        let osz = *b.get(2).ok_or("no offSize")? as usize;
+        if !(1..=4).contains(&osz) { return Err(format!("offSize {osz}")); }
+        let off = |k: usize| -> Result<usize, String> { let p = 3 + k * osz; let s = b.get(p..p + osz).ok_or("offset array truncated")?; Ok(s.iter().fold(0usize, |a, x| a * 256 + *x as usize)) };
+        let base = 3 + (count + 1) * osz - 1;
+        let mut items = vec![];
+        for k in 0..count {
+            let (a, e) = (off(k)?, off(k + 1)?);
+            if a == 0 || e < a { return Err(format!("offsets decrease or zero ({a} -> {e}), offSize {osz}")); }
+            items.push(b.get(base + a..base + e).ok_or("data truncated")?.to_vec());
+        }
+        if base + off(count)? != b.len() { return Err("last offset is not the end of the data".into()); }
+        Ok(items)
+    }
+    let mut evaluated = 0u64; let mut bad: Vec<String> = vec![];
+    let totals: Vec<usize> = vec![0, 1, 2, 253, 254, 255, 256, 257, 65533, 65534, 65535, 65536, 65537, 70000];
+    for total in totals {
+        for pieces in [1usize, 2, 3, 7] {
+            evaluated += 1;
+            // split `total` bytes into `pieces` items (first items get the remainder; an item may be empty)
+            let mut items: Vec<Vec<u8>> = vec![]; let mut left = total; let mut v = 0u8;
+            for p in 0..pieces { let n = if p + 1 == pieces { left } else { left / (pieces - p) + (p % 2) }.min(left); left -= n; items.push((0..n).map(|_| { v = v.wrapping_mul(31).wrapping_add(7); v }).collect()); }
+            let refs: Vec<&[u8]> = items.iter().map(|i| i.as_slice()).collect();
+            let r = panic::catch_unwind(|| build_cff_index(&refs));
+            let ok = match &r { Ok(bytes) => read_index(bytes).map(|got| got == items).unwrap_or(false), Err(_) => false };
+            if !ok && bad.len() < 6 { bad.push(format!("{{\"total_data_bytes\":{total},\"items\":{pieces},\"outcome\":{}}}", js(&match &r { Ok(bytes) => format!("{:?}", read_index(bytes).map(|g| g.len())), Err(_) => "PANIC".to_string() }))); } else if !ok { bad.push(String::new()); }
+        }
+    }
+    let n = bad.len(); bad.retain(|b| !b.is_empty());
+    println!("{{\"cmd\":\"cffindex\",\"bound\":\"14 total data lengths on and around the offSize boundaries (0..2, 253..257, 65533..65537, 70000) x 1, 2, 3, 7 items -> build_cff_index -> independent INDEX reader\",\"evaluated\":{},\"disagreement_count\":{},\"disagreements\":[{}]}}", evaluated, n, bad.join(","));
+}
+
 fn cmd_opnames() {
     use oxidize_pdf::parser::content::{ContentOperation, ContentParser};
     // ISO 32000-1 7.2.2 / 7.3.5: every byte that is not white space, a delimiter or '#' is a regular character and may be written
@@ -1662,6 +1702,7 @@ fn main() {
         Some("a85hex-roundtrip") => cmd_a85hex_roundtrip(args.get(2).and_then(|s| s.parse().ok()).unwrap_or(4)),
         Some("fmt") => cmd_fmt(),
         Some("opnames") => cmd_opnames(),
+        Some("cffindex") => cmd_cffindex(),
         Some("fontsubset") => cmd_fontsubset(),
         Some("image-alpha") => cmd_image_alpha(),
         Some("crypto-ref") => cmd_crypto_ref(args.get(2).and_then(|s| s.parse().ok()).unwrap_or(120)),
